@@ -10,9 +10,14 @@ BASE = dict(NJobs=2, Procs=2, MaxPid=3, MaxTime=3, PoolSoft=0, PoolHard=0,
             DevNoCreditLate=True, HookPause=False)
 
 
+ADAPTER_ONLY = ('CbRaise',)      # the success callback of odd jobs raises an exception the pool lets through
+
+
 def tla_consts(c):
     out = {}
     for k, v in c.items():
+        if k in ADAPTER_ONLY:
+            continue
         if k in ('JobLimits',):
             out[k] = '{' + ', '.join('<<%d, %d>>' % t for t in v) + '}'
         elif k in ('Statuses', 'Results', 'UserCalls'):
@@ -33,6 +38,7 @@ INV = ['CallbacksOnce', 'ResolvedHasCallback', 'CacheExact', 'LostOnlyIfReal',
        'DistinctIdx', 'QuotaRespected', 'SemBounded', 'SlotsConserved', 'InFlightBound',
        'RestartBudget', 'LostNotLate', 'HardWithinScan', 'LostOutcomeReal']
 PROPS = ['OutcomeStable', 'OwnOutcome', 'LateIgnored', 'RevokedIsTerminated', 'LostNotEarly', 'LostMarkRight',
+         'ReapAttributes',
          'VictimGone', 'SoftOnlyIfDue', 'SoftSignalMatchesCallback', 'SoftToRunner', 'HardDelivered',
          'SoftDelivered', 'SnapFresh',
          'SizeAfterMaintain', 'CleanExitsFree', 'NoForkOnRaise', 'AckResetsBudget', 'CreditOnReady']
@@ -61,9 +67,9 @@ class Maker:
 # formulas per property
 FORMULAS = {
     'C01': (['CallbacksOnce', 'ResolvedHasCallback', 'CacheExact', 'AckBeforeResult', 'QuietResolved'],
-            ['OutcomeStable', 'OwnOutcome', 'LateIgnored', 'RevokedIsTerminated']),
+            ['OutcomeStable', 'OwnOutcome', 'LateIgnored', 'RevokedIsTerminated', 'ReapAttributes']),
     'C04': (['LostOnlyIfReal', 'LostNotLate', 'LostOutcomeReal', 'QuietResolved'],
-            ['LostMarkRight', 'LostNotEarly', 'SizeAfterMaintain', 'OwnOutcome']),
+            ['LostMarkRight', 'LostNotEarly', 'ReapAttributes', 'SizeAfterMaintain', 'OwnOutcome']),
     'C05': (['NoFalseTimeout', 'HardWithinScan', 'TimeoutCallbackOnce', 'TimeoutCallbackArgs'],
             ['VictimGone', 'OwnOutcome', 'SizeAfterMaintain', 'HardDelivered', 'SnapFresh']),
     'C06': (['SoftOnce', 'TimeoutCallbackArgs'],
@@ -87,13 +93,14 @@ SCEN = {
         serves=['C01', 'C04', 'C10'],
         quick=dict(
             wide=cfg(NJobs=2, Procs=2, MaxPid=3, MaxTime=2, Statuses=[-9, 1]),
-            small=[cfg(NJobs=2, Procs=1, MaxPid=2, MaxTime=1, Statuses=[-9, 0], MaxDup=1)],
-            walks=cfg(NJobs=3, Procs=2, MaxPid=4, MaxTime=4, Statuses=[-9, 1, 0, 155], MaxDup=1)),
+            small=[cfg(NJobs=2, Procs=1, MaxPid=2, MaxTime=1, Statuses=[-9, 0], MaxDup=1),
+                   cfg(NJobs=2, Procs=1, MaxPid=2, MaxTime=0, Statuses=[-9], Results=['ok'], CbRaise=True)],
+            walks=cfg(NJobs=3, Procs=2, MaxPid=4, MaxTime=4, Statuses=[-9, 1, 0, 155], MaxDup=1, CbRaise=True)),
         thorough=dict(
             wide=cfg(NJobs=2, Procs=2, MaxPid=3, MaxTime=3, Statuses=[-9, 1], MaxDup=1),
             small=[cfg(NJobs=2, Procs=1, MaxPid=2, MaxTime=2, Statuses=[-9, 1], MaxDup=1),
                    cfg(NJobs=2, Procs=2, MaxPid=3, MaxTime=1, Statuses=[-9], Results=['ok'])],
-            walks=cfg(NJobs=3, Procs=2, MaxPid=5, MaxTime=5, Statuses=[-9, 1, 0], MaxDup=2))),
+            walks=cfg(NJobs=3, Procs=2, MaxPid=5, MaxTime=5, Statuses=[-9, 1, 0], MaxDup=2, CbRaise=True))),
     'usercalls': dict(
         serves=['C01', 'C09', 'C10'],
         quick=dict(
@@ -258,8 +265,10 @@ def run(ctx, pid):
         'Worker.workloop by C03',
     ]
     units = []      # (label, kind, consts)
+    import os
+    only = os.environ.get('VERIF_SCEN')          # development aid: one scenario only
     for name, sc in SCEN.items():
-        if pid not in sc['serves']:
+        if pid not in sc['serves'] or (only and name not in only.split(',')):
             continue
         t = sc['thorough' if thorough else 'quick']
         units.append(('pool-%s-wide' % name, 'wide', t['wide']))
